@@ -301,6 +301,10 @@ pub fn build_with_order(spec: &DirSpec, order: Option<&[usize]>) -> Result<Built
     }
 }
 
+/// When set (schemamc), `populate` adds an index "__anchor" (1 entry) whose offset is the handle of
+/// the spec's first entry, and `read_and_compare` checks it.
+pub static ANCHOR_INDEX: std::sync::atomic::AtomicBool = std::sync::atomic::AtomicBool::new(false);
+
 /// Add the spec's value stores, entry store and indexes to a DirectoryPackCreator (used by the
 /// in-memory path above and by BasicCreator-based containers). Returns the handles `add_entry`
 /// returned, per spec entry.
@@ -427,6 +431,12 @@ pub fn populate(
         creator.add_value_store(st.clone());
     }
     let store_id = creator.add_entry_store(store);
+    if ANCHOR_INDEX.load(std::sync::atomic::Ordering::Relaxed) && !spec.entries.is_empty() {
+        // an index whose first entry is given as the handle of an entry (not as a number): it
+        // must start at the final position of that entry
+        let anchor = returned[0].clone().unwrap_or_else(|| binds[0].clone());
+        creator.create_index("__anchor", Default::default(), 0.into(), store_id, 1.into(), anchor.into());
+    }
     for ix in &spec.indexes {
         creator.create_index(
             &ix.name,
@@ -510,6 +520,7 @@ pub struct OpenIndex {
     pub index: jbk::reader::Index,
     pub builder: jbk::reader::builder::AnyBuilder,
     pub store: jbk::reader::EntryStore,
+    pub values: Arc<jbk::reader::ValueStorage>,
 }
 
 impl OpenDir {
@@ -521,7 +532,7 @@ impl OpenDir {
         let store = (self.get_store)(&index)?;
         let builder = jbk::reader::builder::AnyBuilder::new(Arc::clone(&store), &*self.values)
             .map_err(|e| format!("{e}"))?;
-        Ok(Some(OpenIndex { index, builder, store }))
+        Ok(Some(OpenIndex { index, builder, store, values: Arc::clone(&self.values) }))
     }
 }
 
@@ -546,6 +557,60 @@ impl OpenIndex {
         let abs = self.index.offset() + jbk::EntryIdx::from(i);
         let reader = self.store.get_entry_reader(abs).ok_or("no entry reader")?;
         Ok(b.create(&reader).map_err(|e| format!("typed variant: {e}"))?.map(|k| k.0))
+    }
+
+    /// Read every property of entry `i` through the typed builders (`IntProperty`,
+    /// `SignedProperty`, `ContentProperty`, `ArrayProperty`) and compare with `vals`.
+    fn typed_values_agree(&self, i: u32, variant: Option<u8>, vals: &BTreeMap<String, RVal>) -> Result<(), String> {
+        use jbk::reader::builder::{ArrayProperty, ContentProperty, IntProperty, PropertyBuilderTrait, SignedProperty};
+        use jbk::reader::Range;
+        let layout = self.store.layout();
+        let abs = self.index.offset() + jbk::EntryIdx::from(i);
+        let reader = match self.store.get_entry_reader(abs) {
+            Some(r) => r,
+            None => return Err("no entry reader".into()),
+        };
+        let r = crate::catch(|| -> Result<(), String> {
+            for (name, want) in vals {
+                let prop = match layout.common.iter().find(|(n, _)| n.as_str() == name.as_str()) {
+                    Some((_, p)) => p.clone(),
+                    None => {
+                        let vp = layout.variant_part.as_ref().ok_or("property outside the common part but no variant part")?;
+                        let v = variant.ok_or("variant property without a variant")? as usize;
+                        match vp.variants.get(v).and_then(|ps| ps.iter().find(|(n, _)| n.as_str() == name.as_str())) {
+                            Some((_, p)) => p.clone(),
+                            None => return Err(format!("typed reader: property {name} not in the layout")),
+                        }
+                    }
+                };
+                let got = match want {
+                    RVal::U(_) => prop.as_builder::<IntProperty, _>(&*self.values).map_err(|e| format!("{e}"))?.map(|b| b.create(&reader).map(RVal::U)),
+                    RVal::S(_) => prop.as_builder::<SignedProperty, _>(&*self.values).map_err(|e| format!("{e}"))?.map(|b| b.create(&reader).map(RVal::S)),
+                    RVal::C(..) => prop
+                        .as_builder::<ContentProperty, _>(&*self.values)
+                        .map_err(|e| format!("{e}"))?
+                        .map(|b| b.create(&reader).map(|c| RVal::C(c.pack_id.into_u16(), c.content_id.into_u32()))),
+                    RVal::A(_) => prop.as_builder::<ArrayProperty, _>(&*self.values).map_err(|e| format!("{e}"))?.map(|b| {
+                        b.create(&reader).and_then(|a| {
+                            let mut v = jbk::SmallBytes::new();
+                            a.resolve_to_vec(&mut v)?;
+                            Ok(RVal::A(v.to_vec()))
+                        })
+                    }),
+                };
+                match got {
+                    None => return Err(format!("typed reader: no builder of the stored kind for property {name}")),
+                    Some(Err(e)) => return Err(format!("typed reader: property {name}: {e}")),
+                    Some(Ok(g)) if &g != want => return Err(format!("typed reader: property {name} reads {} where the generic reader gives {}", g.to_json(), want.to_json())),
+                    _ => {}
+                }
+            }
+            Ok(())
+        });
+        match r {
+            Ok(x) => x,
+            Err(p) => Err(format!("typed reader: panic {p}")),
+        }
     }
 
     /// `raw` is the variant id the untyped reader returned for entry `i`.
@@ -627,6 +692,8 @@ impl OpenIndex {
                 .ok_or_else(|| format!("{n}: no such property"))?;
             vals.insert(n, rval_of(&raw)?);
         }
+        // the typed property builders (the other way of reading a property) must agree
+        self.typed_values_agree(i, variant, &vals)?;
         Ok(Some(ReadEntry { variant, vals }))
     }
 }
@@ -788,6 +855,24 @@ pub fn read_and_compare(
             }
             at[p] = Some(k);
         }
+        if ANCHOR_INDEX.load(std::sync::atomic::Ordering::Relaxed) && !spec.entries.is_empty() {
+            let oi = od
+                .index("__anchor")
+                .map_err(|e| (format!("unreadable index/store: {}", short(&e)), e))?
+                .ok_or_else(|| ("index missing".to_string(), "__anchor".to_string()))?;
+            let want_pos = final_pos(0);
+            if oi.index.offset().into_u32() as u64 != want_pos || oi.count() != 1 {
+                return Err((
+                    "index anchored on an entry does not start at its final position".into(),
+                    format!("the index given the handle of entry 0 starts at {} (count {}), the entry is at {want_pos}", oi.index.offset().into_u32(), oi.count()),
+                ));
+            }
+            let got = oi.entry(0).map_err(|e| (format!("unreadable entry: {}", short(&e)), e))?.ok_or_else(|| ("entry missing".to_string(), "__anchor entry 0".to_string()))?;
+            let want = expected_entry(spec, 0, final_pos);
+            if got.variant != want.variant || got.vals != want.vals {
+                return Err(("index anchored on an entry does not start at its final position".into(), "its first entry is not the entry whose handle was given".to_string()));
+            }
+        }
         for ix in &spec.indexes {
             let oi = od
                 .index(&ix.name)
@@ -826,6 +911,23 @@ pub fn read_and_compare(
                 }
                 if got.vals.len() != want.vals.len() {
                     return Err(("extra property".into(), format!("entry {i}: {:?}", got.vals.keys())));
+                }
+            }
+            // the same window as a plain range of entries (public conversion Index -> EntryRange)
+            {
+                use jbk::reader::Range;
+                let r: jbk::EntryRange = (&oi.index).into();
+                if r.count().into_u32() != ix.count || r.offset().into_u32() != ix.offset {
+                    return Err((
+                        "index window".into(),
+                        format!("index {} converted to an EntryRange covers ({}, {}) instead of ({}, {})", ix.name, r.offset().into_u32(), r.count().into_u32(), ix.offset, ix.count),
+                    ));
+                }
+                for i in [0u32, ix.count.saturating_sub(1), ix.count] {
+                    let via_range = r.get_entry(&oi.builder, jbk::EntryIdx::from(i)).map_err(|e| ("unreadable entry: range".to_string(), format!("{e}")))?.is_some();
+                    if via_range != (i < ix.count) {
+                        return Err(("index window".into(), format!("index {} as an EntryRange: entry {i} present = {via_range}, window holds {} entries", ix.name, ix.count)));
+                    }
                 }
             }
             // nothing beyond the window
